@@ -1272,6 +1272,7 @@ void SPxSolverBase<R>::setType(Type tp)
          boundrange = base.boundrange;
          siderange = base.siderange;
          objrange = base.objrange;
+         random = base.random;
          infeasibilities = base.infeasibilities;
          infeasibilitiesCo = base.infeasibilitiesCo;
          isInfeasible = base.isInfeasible;
@@ -1481,6 +1482,7 @@ void SPxSolverBase<R>::setType(Type tp)
       , boundrange(base.boundrange)
       , siderange(base.siderange)
       , objrange(base.objrange)
+      , random(base.random)
       , infeasibilities(base.infeasibilities)
       , infeasibilitiesCo(base.infeasibilitiesCo)
       , isInfeasible(base.isInfeasible)
